@@ -183,7 +183,7 @@ pub fn run(ctx: &Ctx, out: &mut CaseOut) {
                     db.budget.set(300_000);
                     let (outcome, delayed) = match choice {
                         SolverChoice::SLG { .. } => {
-                            let before = slg_delayed_table(&mut slg_solver, &p.goal);
+                            let before = crate::common::slg_goal_table_stale(&mut slg_solver, &p.goal);
                             let o = solve(&mut slg_solver, &db, &p.goal);
                             let after = slg_delayed_table(&mut slg_solver, &p.goal);
                             (o, before || after)
